@@ -93,6 +93,8 @@ Blank ==
       draws |-> 0,                             \* generator outputs consumed in this call
       rounds |-> <<>>,                         \* per round: <<"approved"|"vetoed"|"noop", requests>>
       over  |-> 0,                             \* requests rejected because the queue was full
+      oa    |-> 0, osub |-> <<>>,              \* what isActive / activeSubState answer during this call's callbacks
+      ope   |-> 0, opx |-> 0, opc |-> 0,       \* what isPending* answer during the current guard round
       sc    |-> EmptyScript ]
 
 QueueCapacity == COMPO_COUNT
@@ -167,11 +169,14 @@ ObservesConfig(me) == Base(me) \in UpdateMethods \cup ReactMethods \cup GuardMet
 
 Observe(m, s, me) ==
     LET b == Base(me) IN
-    <<  IF ObservesConfig(me) THEN ActiveMask(m) ELSE 0 - 1,
-        IF ObservesConfig(me) THEN SubList(m)    ELSE <<>>,
-        IF b \in GuardMethods THEN PendEMask(m)  ELSE 0 - 1,
-        IF b \in GuardMethods THEN PendXMask(m)  ELSE 0 - 1,
-        IF b \in GuardMethods THEN PendCMask(m)  ELSE 0 - 1,
+    \* Every callback that can observe the configuration runs before the call changes any active prong, and
+    \* the requested prongs are fixed while the guards of one round run; both observations are therefore
+    \* computed once (BeginCall / SnapshotPending) instead of once per callback.
+    <<  IF ObservesConfig(me) THEN m.oa   ELSE 0 - 1,
+        IF ObservesConfig(me) THEN m.osub ELSE <<>>,
+        IF b \in GuardMethods THEN m.ope  ELSE 0 - 1,
+        IF b \in GuardMethods THEN m.opx  ELSE 0 - 1,
+        IF b \in GuardMethods THEN m.opc  ELSE 0 - 1,
         IF b \in GuardMethods THEN m.pend       ELSE <<>>,
         IF b \in GuardMethods \cup LifeMethods THEN m.cur ELSE <<>>  >>
 
@@ -245,11 +250,10 @@ Fire(m, s, me) ==
 
 \* Head::select / rank / utility (const Control&): an event, no ops
 FireReport(m, s, me) == IF ~HasUser(s) THEN m ELSE [m EXCEPT !.ev = Append(@, Event(m, s, me))]
-\* anonymous heads (S_<.., EmptyT<>> in state_2.inl): wrapSelect returns INVALID_PRONG, wrapRank Rank{},
-\* wrapUtility Utility{} (= 0), although EmptyT::select/rank/utility would return 0 / 0 / 1
-SelectOf(m, s) == IF HasUser(s) THEN m.sc.sel[s]  ELSE 0
+\* anonymous heads (S_<.., EmptyT<>> in state_2.inl) answer like EmptyT: select 0 (first), rank 0, utility 1
+SelectOf(m, s) == IF HasUser(s) THEN m.sc.sel[s]  ELSE 1
 RankOf(m, s)   == IF HasUser(s) THEN m.sc.rank[s] ELSE 0
-UtilOf(m, s)   == IF HasUser(s) THEN m.sc.util[s] ELSE RZero
+UtilOf(m, s)   == IF HasUser(s) THEN m.sc.util[s] ELSE ROne
 
 \* PlanControlT::Region (ScopedRegion) : enter / leave
 ScopeIn(m, s)        == [m EXCEPT !.rid = St[s].region, !.rs = s, !.rz = St[s].size]
@@ -263,20 +267,19 @@ ScopeOutC(m1, m)     == [m1 EXCEPT !.rid = m.rid]
 Pin(m, s, i) == IF i # 0 /\ ~IsActive(m, s) THEN [m EXCEPT !.tt[s] = i] ELSE m
 
 ---------------------------------------------------------------------------
-(* RegistryT::requestImmediate : three-phase walk towards the root         *)
+(* RegistryT::requestImmediate : walk from the destination towards the root *)
 
 RECURSIVE Up(_, _, _)
-Up(m, s, ph) ==
+Up(m, s, ph) ==                    \* ph = 1 : below the first composite ancestor; 2 : above it
     IF Par(s) = 0 THEN m ELSE
     LET p == Par(s)  pr == St[s].prong IN
     IF St[p].kind = "O" THEN Up([m EXCEPT !.oreq[St[p].ortho] = @ \cup {pr}], p, ph)
     ELSE LET c == St[p].compo IN
-         CASE ph = 1 -> Up([m EXCEPT !.req[c] = pr], p, 2)
-           [] ph = 2 -> LET m1 == [m EXCEPT !.rem = @ \cup {c}] IN
-                        IF (m.req[c] # pr /\ m.req[c] # 0) \/ m.act[c] # pr
-                        THEN Up([m1 EXCEPT !.req[c] = pr], p, 2)
-                        ELSE Up(m1, p, 3)
-           [] ph = 3 -> Up([m EXCEPT !.rem = @ \cup {c}], p, 3)
+         IF ph = 1 THEN Up([m EXCEPT !.req[c] = pr], p, 2)
+         ELSE LET m1 == [m EXCEPT !.rem = @ \cup {c}] IN
+              IF (m.req[c] # pr /\ m.req[c] # 0) \/ m.act[c] # pr
+              THEN Up([m1 EXCEPT !.req[c] = pr], p, 2)
+              ELSE Up(m1, p, 2)
 
 RequestImmediate(m, d) == Up(m, d, 1)
 
@@ -716,12 +719,14 @@ UpdateActivity(m) ==
         IF IsActive(m, s) THEN (IF a < 0 THEN 1 ELSE IF a < 127 THEN a + 1 ELSE a)
         ELSE (IF a > 0 THEN 0 - 1 ELSE IF a > 0 - 128 THEN a - 1 ELSE a)]]
 
+SnapshotPending(m) == [m EXCEPT !.ope = PendEMask(m), !.opx = PendXMask(m), !.opc = PendCMask(m)]
+
 ApprovedByGuards(m) ==
-    LET g  == NewControl(m)
+    LET g  == SnapshotPending(NewControl(m))
         m1 == DeepForwardExitGuard(g, 1)
     IN IF m1.ok THEN DeepForwardEntryGuard(m1, 1) ELSE m1
 
-ApprovedByEntryGuards(m) == DeepEntryGuard(NewControl(m), 1)
+ApprovedByEntryGuards(m) == DeepEntryGuard(SnapshotPending(NewControl(m)), 1)
 
 RECURSIVE Rounds(_, _, _, _)
 Rounds(m, n, b, initial) ==
@@ -883,7 +888,7 @@ StateStatus(m, s) == IF s \in m.fail THEN [r |-> 2, ot |-> FALSE]
 \* planSucceeded / planFailed : user override, or the default of A_<> (control.succeed() / control.fail())
 FirePlan(m, s, me) ==
     IF ~HasUser(s) THEN m                                   \* EmptyT specialisation: wrapPlan* do nothing
-    ELSE IF s \notin Cfg.defplan THEN Fire(m, s, me)
+    ELSE IF s \notin Cfg.defplan THEN Fire1(m, s, me)        \* no injected handlers for plan callbacks
     ELSE LET m1 == ApplyOp([m EXCEPT !.org = s], me, <<IF me = "planSucceeded" THEN "succeed" ELSE "fail", s>>)
          IN [m1 EXCEPT !.org = m.org]
 
@@ -943,7 +948,8 @@ ClearStatuses(m) == [m EXCEPT !.succ = {}, !.fail = {},
 
 BeginCall(m, sc) ==
     [NewControl(m) EXCEPT !.ev = <<>>, !.draws = 0, !.rounds = <<>>, !.over = 0, !.ok = TRUE, !.rv = TSNone,
-                          !.pend = <<>>, !.cur = <<>>, !.sc = sc]
+                          !.pend = <<>>, !.cur = <<>>, !.sc = sc,
+                          !.oa = ActiveMask(m), !.osub = SubList(m)]
 
 ApiEnter(m, sc)  == InitialEnter(BeginCall(m, sc))                      \* precondition ~On(m)
 ApiExit(m, sc)   == FinalExit(BeginCall(m, sc))                         \* precondition On(m)
